@@ -9,6 +9,10 @@ import (
 // Engine is the compiled query. It is able to evaluate the entire query.
 type Engine struct {
 	Statements []*Statement
+
+	// evaluating contains the names of the variables that are in the middle of
+	// being evaluated. See VariableExpr.
+	evaluating map[string]bool
 }
 
 // Evaluate executes all of the expressions and returns the final result.
